@@ -58,6 +58,11 @@ func c09Triples() []c09Triple {
 
 var c09TripleList = c09Triples()
 
+var c09NameTaking = map[string]bool{"container": true, "leaf": true, "leaf-list": true, "list": true, "choice": true, "case": true, "anyxml": true, "grouping": true,
+	"typedef": true, "feature": true, "identity": true, "extension": true, "rpc": true, "notification": true}
+var c09KeywordNames = []string{"list", "leaf", "version", "to", "feature", "message", "elements", "by", "date", "instance", "digits", "element", "tag", "add", "delete", "replace",
+	"supported", "not-supported", "module", "type", "config", "min", "max", "true", "current"}
+
 func c09MinimalChild(c string, i int) *yang.Stmt {
 	switch c {
 	case "x:ext":
@@ -902,6 +907,31 @@ func (p *c09) Run(tier string, seed int64, idx int) core.CaseResult {
 			cls = "unprefixed-unknown-keyword"
 		}
 		c09Check(text, exp, cls, off, &res)
+		if c09NameTaking[t.P] {
+			// the same triple with the parent statement named like (the second half of) a keyword: a name is a name
+			for _, nm := range c09KeywordNames {
+				root, exp := c09BuildTriple(t)
+				_, ps := yang.Context(t.P)
+				var ren func(s *yang.Stmt) bool
+				ren = func(s *yang.Stmt) bool {
+					if s.Kw == ps.Kw && s.Arg == ps.Arg {
+						s.Arg = nm
+						return true
+					}
+					for _, k := range s.Kids {
+						if ren(k) {
+							return true
+						}
+					}
+					return false
+				}
+				if !ren(root) {
+					continue
+				}
+				res.Ev("triples_with_a_keyword_as_the_name", 1)
+				c09Check(yang.Render(root, nil), exp, cls, off, &res)
+			}
+		}
 		if idx%1009 == 0 {
 			res.Sample = map[string]interface{}{"triple": []interface{}{t.P, t.C, t.M}, "expect": exp, "text": text}
 		}
